@@ -85,6 +85,18 @@ func configs07(tier string) []xplore.Config {
 			}
 		}
 	}
+	// OVERLAPPING subscription paths (a and *, * and a/b): a leaf matched by two
+	// paths enters the subscriber's queue twice during the initial walk and is
+	// coalesced - authorisation is per response all the same
+	for _, a1 := range []bool{false, true} {
+		for _, ps := range [][]string{{"a", "*"}, {"*", "a/b"}, {"a", "a"}} {
+			for _, uo := range []bool{false, true} {
+				sp := subSpec{target: "*", paths: ps, mode: pb.SubscriptionList_STREAM, updatesOnly: uo, user: "u"}
+				out = append(out, xplore.Config{Name: fmt.Sprintf("acl{t1:%v t2:%v} %s (overlapping paths) writers#0", a1, !a1, sp), Bound: bound,
+					Data: cfg07{a1, !a1, false, sp, wscripts[0]}})
+			}
+		}
+	}
 	// authorisation cannot be established AND the request is not a well-formed
 	// subscription for a known target: still Unauthenticated (nothing about the
 	// request, not even whether the target exists, is revealed to a caller
